@@ -262,6 +262,7 @@ class Built:
         self.composition = None
         self.adapters = []  # (link index, position, spec, adapter)
         self.links = []
+        self.deferred = None
 
 
 def build(spec, cap=None, memory=None, location="spill"):
@@ -297,7 +298,7 @@ def build(spec, cap=None, memory=None, location="spill"):
             b.adapters.append((f"T{tid}", pos, a, ada))
             x = x >> ada
         trunk_end[str(tid)] = x
-    for li in link_order:
+    def make_link(li):
         ln = spec["links"][li]
         if ln.get("trunk") is not None:
             x = trunk_end[str(ln["trunk"])]
@@ -309,6 +310,12 @@ def build(spec, cap=None, memory=None, location="spill"):
             x = x >> ada
         x >> b.comps[ln["dst"][0]].inputs[f"in{ln['dst'][1]}"]
         b.links.append(ln)
+
+    for li in link_order:
+        if spec.get("defer_link") == li:
+            b.deferred = lambda li=li: make_link(li)  # the 'forgotten' link, created after the first refused run
+            continue
+        make_link(li)
     return b
 
 
